@@ -734,3 +734,252 @@ pub fn gen_tbir(rng: &mut Rng, w: &mut CaseWriter) {
 
 #[allow(dead_code)]
 pub fn _unused(_: &dyn BinningIndex) {}
+
+// ==========================================================================================
+// fai / crai text layouts against NV.Index.TextIndex
+//   faiw  namehex:len:pos:lb:lw;...      -> hex(text the real writer produced) + records read back | Err
+//   fair  <hex text>                     -> records the real reader returns | Err
+//   craiw rid:start:span:off:land:slen;... (rid/start `-` = None), crair <hex text>: the same
+//         for crai, on the text inside the gzip member
+
+fn fmt_fai(recs: &[noodles_fasta::fai::Record]) -> String {
+    fmt_list(";", recs, |r| {
+        format!("{}:{}:{}:{}:{}", nv::hex(r.name()), r.length(), r.position(), r.line_base_count(), r.line_width())
+    })
+}
+fn fmt_crai(recs: &[noodles_cram::crai::Record]) -> String {
+    fmt_list(";", recs, |r| {
+        format!(
+            "{}:{}:{}:{}:{}:{}",
+            fmt_opt(r.reference_sequence_id(), |x| x.to_string()),
+            fmt_opt(r.alignment_start(), |p| usize::from(p).to_string()),
+            r.alignment_span(),
+            r.offset(),
+            r.landmark(),
+            r.slice_length()
+        )
+    })
+}
+
+fn read_fai_text(text: Vec<u8>) -> String {
+    match nv::guarded(move || noodles_fasta::fai::io::Reader::new(&text[..]).read_index()) {
+        Outcome::Panicked(_) => "Panic".into(),
+        Outcome::Done(Err(_)) => "Err".into(),
+        Outcome::Done(Ok(i)) => fmt_fai(i.as_ref()),
+    }
+}
+fn read_crai_text(text: &[u8]) -> String {
+    let mut e = flate2::write::GzEncoder::new(Vec::new(), Default::default());
+    e.write_all(text).unwrap();
+    let gz = e.finish().unwrap();
+    match nv::guarded(move || noodles_cram::crai::io::Reader::new(&gz[..]).read_index()) {
+        Outcome::Panicked(_) => "Panic".into(),
+        Outcome::Done(Err(_)) => "Err".into(),
+        Outcome::Done(Ok(i)) => fmt_crai(&i),
+    }
+}
+
+pub fn run_faiw(c: &Case) -> Obs {
+    use std::num::NonZero;
+    let recs: Vec<noodles_fasta::fai::Record> = list(';', &c.args[0], |r| {
+        let f: Vec<&str> = r.split(':').collect();
+        noodles_fasta::fai::Record::new(
+            nv::unhex(f[0]),
+            u(f[1]),
+            u(f[2]),
+            NonZero::new(u(f[3])).unwrap(),
+            NonZero::new(u(f[4])).unwrap(),
+        )
+    });
+    let names_ok = recs.iter().all(|r| !r.name().contains(&b'\t') && !r.name().contains(&b'\n'));
+    let non_utf8 = recs.iter().any(|r| std::str::from_utf8(r.name()).is_err());
+    let index = noodles_fasta::fai::Index::from(recs.clone());
+    let mut text = Vec::new();
+    if let Err(e) = noodles_fasta::fai::io::Writer::new(&mut text).write_index(&index) {
+        return Obs::fail(format!("Err:{}", nv::errkind(&e)), "fai-write-error", c.line());
+    }
+    let back = read_fai_text(text.clone());
+    let o = format!("{} {}", nv::hex(&text), back);
+    if !names_ok {
+        return Obs { obs: o, verdict: "skip".into(), nontrivial: false };
+    }
+    if back == fmt_fai(&recs) {
+        Obs::ok(o, !recs.is_empty())
+    } else if non_utf8 && back == "Err" {
+        // known class: the fai reader reads lines as UTF-8 `String`s while names are arbitrary bytes
+        Obs::fail(o, "fai-non-utf8-name", c.line())
+    } else {
+        Obs::fail(o, "fai-roundtrip-not-equal", c.line())
+    }
+}
+
+pub fn run_fair(c: &Case) -> Obs {
+    Obs::ok(read_fai_text(c.b(0)), true)
+}
+
+pub fn run_craiw(c: &Case) -> Obs {
+    let recs: Vec<noodles_cram::crai::Record> = list(';', &c.args[0], |r| {
+        let f: Vec<&str> = r.split(':').collect();
+        noodles_cram::crai::Record::new(
+            opt(f[0], |x| u(x) as usize),
+            opt(f[1], |x| noodles_core::Position::new(u(x) as usize).unwrap()),
+            u(f[2]) as usize,
+            u(f[3]),
+            u(f[4]),
+            u(f[5]),
+        )
+    });
+    let valid = recs.iter().all(|r| r.reference_sequence_id().is_none_or(|x| x <= i32::MAX as usize));
+    let mut w = noodles_cram::crai::io::Writer::new(Vec::new());
+    if let Err(e) = w.write_index(&recs) {
+        return Obs::fail(format!("Err:{}", nv::errkind(&e)), "crai-write-error", c.line());
+    }
+    let gz = match w.finish() {
+        Ok(b) => b,
+        Err(e) => return Obs::fail("-", "crai-finish-error", format!("{e} {}", c.line())),
+    };
+    let mut text = Vec::new();
+    if let Err(e) = flate2::read::MultiGzDecoder::new(&gz[..]).read_to_end(&mut text) {
+        return Obs::fail("-", "crai-written-file-not-gzip", format!("{e} {}", c.line()));
+    }
+    let gz2 = gz.clone();
+    let back = match nv::guarded(move || noodles_cram::crai::io::Reader::new(&gz2[..]).read_index()) {
+        Outcome::Panicked(_) => "Panic".to_string(),
+        Outcome::Done(Err(_)) => "Err".into(),
+        Outcome::Done(Ok(i)) => fmt_crai(&i),
+    };
+    let o = format!("{} {}", nv::hex(&text), back);
+    if !valid {
+        return Obs { obs: o, verdict: "skip".into(), nontrivial: false };
+    }
+    if back == fmt_crai(&recs) { Obs::ok(o, !recs.is_empty()) } else { Obs::fail(o, "crai-roundtrip-not-equal", c.line()) }
+}
+
+pub fn run_crair(c: &Case) -> Obs {
+    Obs::ok(read_crai_text(&c.b(0)), true)
+}
+
+fn gen_fai_name(rng: &mut Rng, i: usize) -> Vec<u8> {
+    let k = rng.range(0, 6) as usize;
+    let mut v: Vec<u8> = Vec::new();
+    match rng.below(10) {
+        0 => v = rng.bytes(k), // any bytes: may hold TAB / LF, may be invalid UTF-8
+        1 => v = rng.bytes(k).into_iter().filter(|b| !matches!(b, b'\t' | b'\n')).collect(),
+        _ => {
+            for _ in 0..k {
+                match rng.below(10) {
+                    0 => v.extend_from_slice("é".as_bytes()),
+                    1 => v.extend_from_slice("染".as_bytes()),
+                    2 => v.extend_from_slice("𝄞".as_bytes()),
+                    3 => v.push(b'\r'),
+                    _ => v.push(rng.range(0x20, 0x7e) as u8),
+                }
+            }
+        }
+    }
+    if !rng.chance(1, 6) {
+        v.extend_from_slice(format!("s{i}").as_bytes());
+    }
+    v
+}
+
+pub fn gen_faiw(rng: &mut Rng, w: &mut CaseWriter) {
+    let n = rng.range(0, 4) as usize;
+    let recs: Vec<String> = (0..n)
+        .map(|i| {
+            format!(
+                "{}:{}:{}:{}:{}",
+                nv::hex(&gen_fai_name(rng, i)),
+                gen_u64(rng),
+                gen_u64(rng),
+                gen_u64(rng).max(1),
+                gen_u64(rng).max(1)
+            )
+        })
+        .collect();
+    w.push("faiw", vec![if recs.is_empty() { "_".into() } else { recs.join(";") }]);
+}
+
+fn gen_num_text(rng: &mut Rng, signed_ok: bool) -> String {
+    match rng.below(14) {
+        0 => format!("+{}", rng.below(1000)),
+        1 => format!("00{}", rng.below(1000)),
+        2 => "18446744073709551615".into(),
+        3 => "18446744073709551616".into(),
+        4 => "0".into(),
+        5 => "".into(),
+        6 => if signed_ok { "-1".into() } else { "-0".into() },
+        7 => format!("-{}", rng.below(5)),
+        8 => format!("{}x", rng.below(100)),
+        9 => "2147483648".into(),
+        10 => "2147483647".into(),
+        _ => gen_u64(rng).min(1 << 40).to_string(),
+    }
+}
+
+fn gen_text(rng: &mut Rng, nfields: usize, fai: bool) -> Vec<u8> {
+    let mut v = Vec::new();
+    let n = rng.range(0, 3);
+    for i in 0..n {
+        let clean = rng.chance(1, 2);
+        let nf = if clean || rng.chance(3, 4) { nfields } else { nfields - 1 + 2 * rng.below(2) as usize };
+        for j in 0..nf {
+            if j > 0 {
+                v.push(b'\t');
+            }
+            if fai && j == 0 {
+                let mut name = gen_fai_name(rng, i as usize);
+                name.retain(|b| !matches!(b, b'\t' | b'\n'));
+                if !clean && rng.chance(1, 4) {
+                    name.push(0xc3); // truncated UTF-8 sequence
+                }
+                v.extend(name);
+            } else if clean {
+                let x = if !fai && j == 0 {
+                    if rng.chance(1, 3) { "-1".to_string() } else { rng.below(100).to_string() }
+                } else {
+                    gen_u64(rng).max(1).to_string()
+                };
+                v.extend(x.as_bytes());
+            } else {
+                v.extend(gen_num_text(rng, !fai && j == 0).as_bytes());
+            }
+        }
+        match rng.below(8) {
+            0 => v.extend(b"\r\n"),
+            1 if i + 1 == n => {}           // no final newline
+            2 if i + 1 == n => v.push(b'\r'), // bare CR at the end of the file: not stripped
+            3 if !clean => v.extend(b"\n\n"), // an empty line
+            _ => v.push(b'\n'),
+        }
+    }
+    v
+}
+
+pub fn gen_fair(rng: &mut Rng, w: &mut CaseWriter) {
+    w.push("fair", vec![nv::hex(&gen_text(rng, 5, true))]);
+}
+
+pub fn gen_craiw(rng: &mut Rng, w: &mut CaseWriter) {
+    let n = rng.range(0, 4);
+    let recs: Vec<String> = (0..n)
+        .map(|_| {
+            let rid = match rng.below(6) {
+                0 => "-".to_string(),
+                1 => (i32::MAX as u64 - rng.below(2)).to_string(),
+                2 if rng.chance(1, 3) => (i32::MAX as u64 + 1 + rng.below(3)).to_string(), // does not read back
+                _ => {
+                    let sh = rng.below(31);
+                    rng.below(1 << sh).to_string()
+                }
+            };
+            let start = if rng.chance(1, 4) { "-".to_string() } else { gen_u64(rng).max(1).to_string() };
+            format!("{rid}:{start}:{}:{}:{}:{}", gen_u64(rng), gen_u64(rng), gen_u64(rng), gen_u64(rng))
+        })
+        .collect();
+    w.push("craiw", vec![if recs.is_empty() { "_".into() } else { recs.join(";") }]);
+}
+
+pub fn gen_crair(rng: &mut Rng, w: &mut CaseWriter) {
+    w.push("crair", vec![nv::hex(&gen_text(rng, 6, false))]);
+}
